@@ -35,6 +35,9 @@ def lanczos_iteration(Afunc, vstart, numiter):
         w = Afunc(V[j])
         alpha[j] = np.vdot(w, V[j]).real
         w -= alpha[j]*V[j] + (beta[j-1]*V[j-1] if j > 0 else 0)
+        # full re-orthogonalization against all previous Lanczos vectors,
+        # compensating the loss of orthogonality in finite-precision arithmetic
+        w -= V[:j+1].T @ (V[:j+1].conj() @ w)
         beta[j] = np.linalg.norm(w)
         if beta[j] < 100*len(vstart)*np.finfo(float).eps:
             warnings.warn(
